@@ -113,7 +113,9 @@ Arguments case T : clear implicits.
 Definition tol : Q := 1 # 1000000000000.
 Definition qcl (impl model : Q) : bool := Qclose tol tol impl model.
 (* the variant MEASURED on the running code must be the one READ from the regenerated table *)
-Definition vt_consistent (vt : variant) : bool := Bool.eqb (v_frvec_lin vt) frvec_lin_of_table.
+Definition vt_consistent (vt : variant) : bool :=
+  Bool.eqb (v_frvec_lin vt) frvec_lin_of_table
+  && v_frvec_lin vt && v_vecsum_field vt.        (* the running code must be the live (repaired) variant *)
 Definition check_real (k : case Q) : bool := check qcl k && vt_consistent (c_vt k).
 Definition qMat := @LMat Q _.
 Definition qAff := @LAff Q _.
